@@ -71,6 +71,7 @@ type SpecFunc struct {
 	Body      *SX
 	Decreases *Clause
 	Recursive bool
+	Uninterp  bool
 	File      string
 	Line      int
 }
@@ -106,6 +107,7 @@ var (
 	reFuncHdr   = regexp.MustCompile(`^func\s+(?:\(\s*(?:\w+\s+)?\*?([\w./]+)\s*\)\s*\.?\s*)?([\w.]+)(?:\[[^\]]*\])?\s*$`)
 	reExternHdr = regexp.MustCompile(`^extern\s+func\s+(?:\(\s*\*?([\w./\-]+)\s*\)\s*\.\s*)?([\w./\-]+)\s*$`)
 	reSpecHdr   = regexp.MustCompile(`^spec\s+func\s+(\w+)\s*\(([^)]*)\)\s*([\w\[\]*.]+)\s*=\s*(.*)$`)
+	reSpecDecl  = regexp.MustCompile(`^spec\s+func\s+(\w+)\s*\(([^)]*)\)\s*([\w\[\]*.]+)\s*$`)
 	reLemmaHdr  = regexp.MustCompile(`^lemma\s+(\w+)\s*\(([^)]*)\)\s*$`)
 )
 
@@ -232,6 +234,13 @@ func (cs *ContractSet) loadContractFile(path, defaultPkg string) error {
 			finish()
 			m := reSpecHdr.FindStringSubmatch(body)
 			if m == nil {
+				if d := reSpecDecl.FindStringSubmatch(body); d != nil {
+					// uninterpreted spec function: declared, not defined
+					sf := &SpecFunc{Pkg: pkg, Name: d[1], Params: parseParams(d[2]), Ret: d[3], File: path, Line: ln, Uninterp: true}
+					cs.SpecFuncs[sf.Name] = sf
+					cs.SpecFuncs[pkg+"."+sf.Name] = sf
+					continue
+				}
 				return fmt.Errorf("%s:%d: bad spec func header %q", path, ln, body)
 			}
 			curSpec = &SpecFunc{Pkg: pkg, Name: m[1], Params: parseParams(m[2]), Ret: m[3], File: path, Line: ln}
